@@ -184,7 +184,9 @@ def main(argv=None):
     caps = {"task_s": 300 if a.tier == "quick" else 2400}
     if a.tier == "thorough" or os.environ.get("VERIF_XSOLVER"): caps["dump_queries"] = 4
     caps.update(getattr(mod, "CAPS", {}).get(a.tier, {}))
-    if len(t) > 2 and t[2]: caps.update(t[2])
+    if len(t) > 2 and t[2]:
+      caps.update(t[2])
+      if t[2].get("optional") and "task_s" not in t[2]: caps["task_s"] = min(caps["task_s"], 900)   # attempts are time-boxed
     if a.only and a.only not in hname and a.only not in json.dumps(core._jsonable(cfg)):
       continue
     tasks.append((a.pid, hname, cfg, caps))
